@@ -8,7 +8,7 @@ PID = "C06"
 MINE = {"NewShapeIdsFresh", "NewSlideIdFresh", "SlideIdsStable", "RidsUniquePerSource", "RidsNotReassigned", "PartNamesUnique",
         "SlidesNamedInOrderOnceAccessed", "LookupStable", "UniqueMembers", "OperationSucceeds"}
 IDS = ["addShape", "autoshape", "textbox", "group", "freeform", "picture", "connector", "table", "setTurbo", "addSlide", "reopen", "access"]
-RIDS = ["addShape", "picture", "chart", "notes", "setLink", "clearLink", "setJump", "clearJump", "addSlide", "reopen", "save"]
+RIDS = ["addShape", "picture", "notes", "setLink", "changeLink", "clearLink", "setJump", "clearJump", "setRunLink", "setHover", "clearRunLink", "reopen"]
 
 
 def configs(thorough):
